@@ -384,7 +384,7 @@ func TestC18(t *testing.T) {
 	// (e2) dyadic rationals k/2^j and k*2^j with short k: their decimal expansions terminate, so exact ties at the last
 	// printed digit (round-half-even decisions of the shortest-digits algorithm) occur, which random patterns never hit;
 	// and large values reached through integer-notation literals
-	nd := nCases(120_000, 3_000_000)
+	nd := nCases(600_000, 6_000_000)
 	for i := 0; i < nd; i++ {
 		k := r.u64() >> uint(40+r.intn(24)) // up to 24 significant bits
 		if k == 0 {
@@ -405,7 +405,7 @@ func TestC18(t *testing.T) {
 		}
 		c18Eval(t, b, "set", "dyadic")
 	}
-	for i := 0; i < nCases(40_000, 1_000_000); i++ {
+	for i := 0; i < nCases(120_000, 2_000_000); i++ {
 		e := 63 + r.intn(960)
 		b := uint64(1023+e)<<52 | r.u64()&(1<<52-1)
 		if r.intn(3) == 0 {
@@ -418,7 +418,7 @@ func TestC18(t *testing.T) {
 	}
 
 	// (f) integers up to 2^63 scaled by powers of ten
-	n := nCases(300_000, 8_000_000)
+	n := nCases(1_200_000, 12_000_000)
 	for i := 0; i < n; i++ {
 		m := r.u64() >> uint(r.intn(64))
 		k := r.intn(640) - 330
@@ -434,7 +434,7 @@ func TestC18(t *testing.T) {
 	}
 
 	// (g) digit-count classes 1..17
-	n = nCases(200_000, 6_000_000)
+	n = nCases(800_000, 8_000_000)
 	for i := 0; i < n; i++ {
 		nd := 1 + r.intn(17)
 		var sb bytes.Buffer
@@ -456,7 +456,7 @@ func TestC18(t *testing.T) {
 	}
 
 	// (h) uniform random bit patterns
-	n = nCases(1_500_000, 400_000_000)
+	n = nCases(8_000_000, 400_000_000)
 	for i := 0; i < n; i++ {
 		b := r.u64()
 		if (b>>52)&0x7ff == 0x7ff {
